@@ -22,12 +22,15 @@ RULE = ('part V: every channel configuration (9 codes x samples x bursts, 1-3 ch
         '{explicit, implied code 68, implied code 73} x direction {up, down, neither} x spacing {1/2, 1/10, convertible units} x '
         'frames 1..N x frames per record 1..4 x every slice(a,b,s), 0<=a<b<=n, 1<=s<=n; part I: surroundings (reel/tape/file '
         'headers and trailers, tables, unknown-format records, a second pass) x physical record length x TIF: index entries; part '
-        'H: BFS over setFrameSet histories. non-trivial = any selection or more than one data record; outcome = hash of loaded matrix')
+        'P: frames-per-record patterns that are not "k,..,k,short last" x X mode x direction x selections starting at record '
+        'boundaries; part D: a normal (type 0) and an alternate (type 1) format specification in one logical file, data records '
+        'interleaved in every listed order; part H: BFS over setFrameSet histories. Every load is also read back through '
+        'value(frame,channel,sub-channel,sample,burst) and the per-channel views. non-trivial = any selection or more than one data record; outcome = hash of loaded matrix')
 ASSUMPTIONS = ['slices are the documented domain of setFrameSet: concrete start < stop <= total frames, step >= 1 (or None for all)',
                'frame values are exactly representable in their code and in float64; implied X with spacing 1/2 is compared exactly, spacing 1/10 and converted units within (frames+2) ulp',
                'index entries are compared for header, trailer, table and format-specification records; records of unknown internal format need only not disturb their neighbours',
                'dipmeter codes (130, 234) are exercised in C08 only']
-BOUNDS = {'quick': 'S: frames <= 7', 'thorough': 'S: frames <= 9, V with (9,4) added; H depth 3'}
+BOUNDS = {'quick': 'S: frames <= 7; P: 7 patterns; D: 5 interleavings', 'thorough': 'S: frames <= 9, V with (9,4) added; P: plus every 3- and 4-record pattern over {1,2,3} frames whose leading records differ; D: 8 interleavings; H depth 3'}
 LEVEL_TEXT = ('Every load of the enumerated selection space runs on the real index of an independently produced file and is compared '
               'element by element; the file reads during a load are checked against the layout map; histories of loads are explored '
               'breadth first on the real objects.')
@@ -55,6 +58,27 @@ def to_code(code, v):
     return Fraction(v)
 
 
+def rec_layout(spec):
+    """[[frame indexes] per data record]: 'pattern' (frames per record, any list summing to n) or a uniform 'fpr'."""
+    n = spec['n']
+    if spec.get('pattern'):
+        assert sum(spec['pattern']) == n and all(k >= 1 for k in spec['pattern']), spec
+        out, f = [], 0
+        for k in spec['pattern']:
+            out.append(list(range(f, f + k)))
+            f += k
+        return out
+    fpr = spec['fpr']
+    return [list(range(start, min(n, start + fpr))) for start in range(0, n, fpr)]
+
+
+def rec_start(spec, f):
+    for fs in rec_layout(spec):
+        if fs[0] <= f <= fs[-1]:
+            return fs[0]
+    raise IndexError(f)
+
+
 def x_of(spec, f):
     """Exact recorded X of frame f: for implied X the record's depth word plus whole spacings; for an explicit X channel
     the channel value itself."""
@@ -63,7 +87,7 @@ def x_of(spec, f):
         sp = sp * Fraction(spec['sp_conv'][0], spec['sp_conv'][1])      # spacing converted into depth units
     d = -1 if spec['updown'] == 1 else 1
     if spec['indirect']:
-        start = (f // spec['fpr']) * spec['fpr']
+        start = rec_start(spec, f)
         return to_code(spec['indirect'], Fraction(spec['x0']) + d * start * sp) + d * (f - start) * sp
     return to_code(spec['channels'][0]['code'], Fraction(spec['x0']) + d * f * sp)
 
@@ -93,7 +117,7 @@ def build_pass(spec, pk=0):
     dsbs = [L.dsb(c['mnem'].encode(), c['units'].encode(), L.RC_SIZE[c['code']] * c['samples'] * c['bursts'], c['samples'], c['code'])
             for c in spec['channels']]
     recs = [L.dfsr(ebs, dsbs)]
-    n, fpr = spec['n'], spec['fpr']
+    n = spec['n']
     matrix = []
     for f in range(n):
         row = []
@@ -101,8 +125,8 @@ def build_pass(spec, pk=0):
             row.append(channel_values(spec, pk, f, c))
         matrix.append(row)
     rec_frames = []
-    for start in range(0, n, fpr):
-        fs = list(range(start, min(n, start + fpr)))
+    for fs in rec_layout(spec):
+        start = fs[0]
         frames = []
         for f in fs:
             by = b''
@@ -137,19 +161,54 @@ SURROUND_TYPE = {'reel_head': 132, 'tape_head': 130, 'file_head': 128, 'file_tai
 TABLE_NAME = {'cons': b'CONS', 'tool': b'TOOL', 'job': b'JOB '}
 
 
-def assemble(items, layout):
-    """items: list of names from SURROUND or ['pass', spec, pk].  Returns (bytes, lay, per item: (first record index, model))."""
-    recs = []
-    info = []
+def assemble2(items, layout):
+    """items: names from SURROUND, ['pass', spec, pk], or ['pair', specA, pkA, specB, pkB, order]: two format
+    specifications (e.g. normal data type 0 and alternate data type 1) written one after the other, followed by their
+    data records interleaved as `order` says ('ABAB..': one letter per data record).
+    Returns (bytes, lay, info, entries, passes): info is per item (first record index, model or None); entries is the
+    expected index content [(lr type, record index, table name)] in file order; passes is, per format specification in
+    file order, {'spec', 'model', 'data_recs': [record index per data record]}."""
+    recs, info, entries, passes = [], [], [], []
     for it in items:
         if isinstance(it, str):
             info.append((len(recs), None))
+            entries.append((SURROUND_TYPE[it], len(recs), TABLE_NAME.get(it)))
             recs.append(SURROUND[it]())
-        else:
+        elif it[0] == 'pass':
             body, model = build_pass(it[1], it[2])
             info.append((len(recs), model))
+            entries.append((64, len(recs), None))
+            passes.append({'spec': it[1], 'model': model, 'data_recs': [len(recs) + 1 + i for i in range(len(body) - 1)]})
             recs.extend(body)
+        else:
+            _, sa, pka, sb, pkb, order = it
+            body_a, model_a = build_pass(sa, pka)
+            body_b, model_b = build_pass(sb, pkb)
+            info.append((len(recs), (model_a, model_b)))
+            pa = {'spec': sa, 'model': model_a, 'data_recs': []}
+            pb = {'spec': sb, 'model': model_b, 'data_recs': []}
+            entries.append((64, len(recs), None))
+            recs.append(body_a[0])
+            entries.append((64, len(recs), None))
+            recs.append(body_b[0])
+            qa, qb = list(body_a[1:]), list(body_b[1:])
+            for letter in order:
+                src, dst = (qa, pa) if letter == 'A' else (qb, pb)
+                if src:
+                    dst['data_recs'].append(len(recs))
+                    recs.append(src.pop(0))
+            for src, dst in ((qa, pa), (qb, pb)):
+                while src:
+                    dst['data_recs'].append(len(recs))
+                    recs.append(src.pop(0))
+            passes.extend([pa, pb])
     data, lay = L.build_file(recs, layout.get('maxlen', 65535), tif=layout.get('tif'))
+    return data, lay, info, entries, passes
+
+
+def assemble(items, layout):
+    """Compatibility form used by other checks: (bytes, lay, per item: (first record index, model))."""
+    data, lay, info, _entries, _passes = assemble2(items, layout)
     return data, lay, info
 
 
@@ -165,7 +224,7 @@ def built(items, layout):
     if k not in _BUILT:
         if len(_BUILT) > 8:
             _BUILT.clear()
-        _BUILT[k] = assemble(items, layout)
+        _BUILT[k] = assemble2(items, layout)
     return _BUILT[k]
 
 
@@ -173,12 +232,11 @@ class System:
     def __init__(self, items, layout):
         from TotalDepth.LIS.core import File, FileIndexer
         self.items = items
-        self.data, self.lay, self.info = built(items, layout)
+        self.data, self.lay, self.info, self.entries, self.pass_list = built(items, layout)
         self.f = CountingBytesIO(self.data)
         self.fr = File.FileRead(self.f, 'fid', keepGoing=False)
         self.index = FileIndexer.FileIndex(self.fr)
         self.passes = list(self.index.genLogPasses())
-        self.pass_items = [i for i, it in enumerate(items) if not isinstance(it, str)]
 
     def canon(self):
         p = self.fr._prh
@@ -189,14 +247,7 @@ class System:
 
 def check_index(system):
     bad = []
-    exp = []
-    for i, it in enumerate(system.items):
-        rec0 = system.info[i][0]
-        start = system.lay.records[rec0]['start']
-        if isinstance(it, str):
-            exp.append((SURROUND_TYPE[it], start, TABLE_NAME.get(it)))
-        else:
-            exp.append((64, start, None))
+    exp = [(t, system.lay.records[ri]['start'], name) for t, ri, name in system.entries]
     got = []
     for ent in system.index:
         got.append((ent.lrType, ent.tell, getattr(ent, 'name', None) if ent.lrType in (32, 34, 39) else None))
@@ -205,15 +256,15 @@ def check_index(system):
     e2 = [e for e in exp if e[0] in strict]
     if g2 != e2:
         bad.append(({'kind': 'index_entries'}, 'index lists %r, file holds %r' % (g2, e2)))
-    if len(system.passes) != len(system.pass_items):
-        bad.append(({'kind': 'log_pass_count'}, '%d log passes found, %d written' % (len(system.passes), len(system.pass_items))))
+    if len(system.passes) != len(system.pass_list):
+        bad.append(({'kind': 'log_pass_count'}, '%d log passes found, %d written' % (len(system.passes), len(system.pass_list))))
         return bad
-    for k, pi in enumerate(system.pass_items):
-        spec = system.items[pi][1]
-        model = system.info[pi][1]
+    for k, p in enumerate(system.pass_list):
+        spec, model = p['spec'], p['model']
         lp = system.passes[k].logPass
         if lp.totalFrames != spec['n']:
-            bad.append(({'kind': 'total_frames'}, 'pass %d: totalFrames=%r, %d written' % (k, lp.totalFrames, spec['n'])))
+            bad.append(({'kind': 'total_frames'}, 'pass %d: totalFrames=%r, %d written (records of %r frames)'
+                        % (k, lp.totalFrames, spec['n'], [len(r) for r in model['rec_frames']])))
             continue
         x_first = x_of(spec, 0) if spec['indirect'] else model['matrix'][0][0][0]
         if Fraction(float(lp.xAxisFirstVal)) != x_first:
@@ -224,7 +275,8 @@ def check_index(system):
             got_last = lp.xAxisLastVal
             tol = (abs(x_last) + 1) * Fraction(1, 2 ** 21) if (spec['spacing'][1] not in (1, 2, 4) or spec.get('sp_conv')) else 0
             if got_last is None or abs(Fraction(float(got_last)) - x_last) > tol:
-                bad.append(({'kind': 'x_last'}, 'pass %d: xAxisLastVal=%r expected %s' % (k, got_last, float(x_last))))
+                bad.append(({'kind': 'x_last'}, 'pass %d: xAxisLastVal=%r expected %s (records of %r frames)'
+                            % (k, got_last, float(x_last), [len(r) for r in model['rec_frames']])))
     return bad
 
 
@@ -244,12 +296,14 @@ def bug_f8_vector(spec, model, frames):
     sp = float(x_of(spec, 1) - x_of(spec, 0))
     out = []
     by_rec = {}
+    layout = rec_layout(spec)
+    rec_index = {f: r for r, fs in enumerate(layout) for f in fs}
     for f in frames:
-        by_rec.setdefault(f // spec['fpr'], []).append(f)
+        by_rec.setdefault(rec_index[f], []).append(f)
     for r in sorted(by_rec):
         fs = by_rec[r]
-        o0 = fs[0] - r * spec['fpr']
-        xrec = float(x_of(spec, r * spec['fpr']))
+        o0 = fs[0] - layout[r][0]
+        xrec = float(x_of(spec, layout[r][0]))
         if not out:
             x = xrec + o0 * sp
         elif o0 == 0:
@@ -262,12 +316,44 @@ def bug_f8_vector(spec, model, frames):
     return out
 
 
+def check_accessors(spec, model, fs, frames, cols, sl, chs):
+    """The addressed forms of the same frame set - value(frame, channel, sub-channel, sample, burst), valueIdxInFrame and
+    the per-channel views - against the recorded value of that very frame / channel / sample / burst (bursts vary fastest
+    on the tape: LIS79 4.1.6)."""
+    for c in cols:
+        ch = spec['channels'][c]
+        sa_n, bu_n = ch['samples'], ch['bursts']
+        try:
+            if (fs.numSamples(c, 0), fs.numBursts(c, 0)) != (sa_n, bu_n):
+                return [({'kind': 'samples_bursts'}, 'load(%r,%r): channel %d has (samples,bursts)=%r, recorded %r'
+                         % (sl, chs, c, (fs.numSamples(c, 0), fs.numBursts(c, 0)), (sa_n, bu_n)))]
+            for r, f in enumerate(frames):
+                expv = [float(v) for v in model['matrix'][f][c]]
+                view = [float(v) for v in fs.frame_channel_sub_channel_values(r, c, 0)]
+                if view != expv and not (np.isnan(view).all() and np.isnan(expv).all()):
+                    return [({'kind': 'channel_view_values'}, 'load(%r,%r): frame_channel_sub_channel_values(%d,%d,0)=%r recorded %r'
+                             % (sl, chs, r, c, view, expv))]
+                for sa in range(sa_n):
+                    for bu in range(bu_n):
+                        v = float(fs.value(r, c, 0, sa, bu))
+                        e = expv[sa * bu_n + bu]
+                        if v != e and not (v != v and e != e):
+                            return [({'kind': 'addressed_value'}, 'load(%r,%r): value(frame %d, channel %d, sub-channel 0, sample %d, '
+                                     'burst %d)=%r, recorded %r (channel is %d samples x %d bursts)' % (sl, chs, r, c, sa, bu, v, e, sa_n, bu_n))]
+            col = [float(v) for v in np.asarray(fs.frameView(c, 0)).reshape(-1)]
+            expcol = [float(v) for f in frames for v in model['matrix'][f][c]]
+            if col != expcol:
+                return [({'kind': 'channel_view_values'}, 'load(%r,%r): frameView(%d,0)=%r recorded %r' % (sl, chs, c, col, expcol))]
+        except Exception as err:  # noqa
+            return [({'kind': 'accessor_raises', 'exc': type(err).__name__}, 'load(%r,%r): channel %d: %s: %s' % (sl, chs, c, type(err).__name__, err))]
+    return []
+
+
 def step(system, op, check):
     """op = ['load', pass index, [a,b,s] or None, channel list or None]"""
     _, k, sl, chs = op
-    pi = system.pass_items[k]
-    spec = system.items[pi][1]
-    model = system.info[pi][1]
+    p = system.pass_list[k]
+    spec, model = p['spec'], p['model']
     lp = system.passes[k].logPass
     n = spec['n']
     pyslice = None if sl is None else slice(sl[0], sl[1], sl[2])
@@ -295,8 +381,10 @@ def step(system, op, check):
     elif got.tobytes() != exp.tobytes():
         diff = np.argwhere(got != exp)
         r, c = diff[0]
-        bad.append(({'kind': 'matrix_values'}, 'load(%r,%r): element [%d,%d]=%r expected %r (n=%d, frames/record=%d)'
-                    % (sl, chs, r, c, got[r, c], exp[r, c], n, spec['fpr'])))
+        bad.append(({'kind': 'matrix_values'}, 'load(%r,%r): element [%d,%d]=%r expected %r (n=%d, records of %r frames)'
+                    % (sl, chs, r, c, got[r, c], exp[r, c], n, [len(x) for x in model['rec_frames']])))
+    if got.shape == exp.shape and not bad:
+        bad.extend(check_accessors(spec, model, fs, frames, cols, sl, chs))
     if spec['indirect'] and got.shape[0] == len(frames):
         xs = [float(fs.xAxisValue(i)) for i in range(len(frames))]
         exact = [x_of(spec, f) for f in frames]
@@ -308,17 +396,16 @@ def step(system, op, check):
             bug = bug_f8_vector(spec, model, frames)
             if all(abs(a - b) <= (abs(b) + 1) * (n + 2) * 2.0 ** -52 for a, b in zip(xs, bug)):
                 bad.append(({'kind': 'implied_x_extrapolated_from_previous_record'},
-                            'load(%r,%r) n=%d frames/record=%d: implied X %r, recorded %r (first selected frame of a later record '
-                            'extrapolated from the previous row)' % (sl, chs, n, spec['fpr'], xs, [float(e) for e in exact])))
+                            'load(%r,%r) n=%d records of %r frames: implied X %r, recorded %r (first selected frame of a later record '
+                            'extrapolated from the previous row)' % (sl, chs, n, [len(x) for x in model['rec_frames']], xs, [float(e) for e in exact])))
             else:
-                bad.append(({'kind': 'implied_x_wrong'}, 'load(%r,%r) n=%d frames/record=%d: implied X %r, recorded %r'
-                            % (sl, chs, n, spec['fpr'], xs, [float(e) for e in exact])))
+                bad.append(({'kind': 'implied_x_wrong'}, 'load(%r,%r) n=%d records of %r frames: implied X %r, recorded %r'
+                            % (sl, chs, n, [len(x) for x in model['rec_frames']], xs, [float(e) for e in exact])))
     # reads only inside the data records that contain requested frames
-    rec0 = system.info[pi][0]
     spans = []
     for ri, fsr in enumerate(model['rec_frames']):
         if set(fsr) & set(frames):
-            spans.append(system.lay.record_span(rec0 + 1 + ri))
+            spans.append(system.lay.record_span(p['data_recs'][ri]))
     for pos, ln in system.f.reads:
         if ln and not any(a <= pos and pos + ln <= b for a, b in spans):
             bad.append(({'kind': 'load_reads_outside_requested_records'},
@@ -344,7 +431,7 @@ def configs_V():
         yield [chan('X   ', c)]
     for c0 in CODES:
         for c1 in CODES:
-            for sa, bu in ((1, 1), (2, 1), (1, 2), (2, 2)):
+            for sa, bu in ((1, 1), (2, 1), (1, 2), (2, 2), (3, 2)):
                 yield [chan('X   ', c0), chan('A   ', c1, sa, bu)]
     for i, (c1, (sa, bu)) in enumerate(itertools.product(CODES, ((1, 1), (2, 1), (1, 2), (2, 2)))):
         yield [chan('X   ', 68), chan('A   ', c1, sa, bu), chan('B   ', CODES[(i * 2 + 3) % 9], 1 + i % 2, 1)]
@@ -404,6 +491,49 @@ def gen_S(tier):
                             yield ['file_head', ['pass', spec, 0], 'file_tail'], {'maxlen': 65535}, ops
 
 
+PATTERNS = [[3, 3, 1, 3, 3], [2, 5, 5, 5], [1, 2, 3], [4, 1, 1, 4], [2, 2, 3, 3, 2, 2], [1, 1, 2], [3, 1, 2]]
+
+
+def gen_P(tier):
+    """Frames-per-record patterns that are not 'k, k, ..., k, short last'."""
+    cfgs = [[chan('X   ', 68), chan('A   ', 73)], [chan('X   ', 73), chan('A   ', 68, 2, 2)]]
+    pats = PATTERNS if tier == 'quick' else PATTERNS + [list(p) for n in (3, 4) for p in itertools.product((1, 2, 3), repeat=n)
+                                                        if len(set(p[:-1])) > 1]
+    for pat in pats:
+        n = sum(pat)
+        for cfg in cfgs:
+            for indirect in (0, 68, 73):
+                for updown in (1, 255):
+                    spacing = (2, 1) if (indirect == 73 or (not indirect and cfg[0]['code'] == 73)) else (1, 2)
+                    spec = base_spec(cfg, n, 0, indirect=indirect, updown=updown, spacing=spacing, pattern=list(pat))
+                    starts = sorted({0, 1, pat[0], pat[0] + 1, n - pat[-1], n - 1} & set(range(n)))
+                    sels = [None] + [[a, b, st] for a in starts for b in sorted({a + 1, n - 1, n}) if b > a for st in (1, 2, 3, 4)]
+                    ops = [['load', 0, sl, cs] for sl in sels for cs in (None, [1])]
+                    yield ['file_head', ['pass', spec, 0], 'file_tail'], {'maxlen': 65535}, ops
+
+
+def gen_D(tier):
+    """Two format specifications in one logical file: normal (type 0) and alternate (type 1) data, records interleaved."""
+    cfg_a = [chan('DEPT', 68), chan('GR  ', 68), chan('SP  ', 79, 2, 1)]
+    cfg_b = [chan('TIME', 68), chan('TENS', 73)]
+    orders = ['AABB', 'ABAB', 'BBAA', 'BABA', 'ABBA'] + (['AAAB', 'BAAA', 'BAAB'] if tier == 'thorough' else [])
+    for (ta, tb) in ((0, 1), (1, 0)):
+        for order in orders:
+            for indirect in (0, 68):
+                for mid in ([], ['cons']):
+                    for layout in ({'maxlen': 65535}, {'maxlen': 48, 'tif': 'normal'}):
+                        sa = base_spec(cfg_a, 6, 3, indirect=indirect, dtype=ta)
+                        sb = base_spec(cfg_b, 5, 2, indirect=indirect, updown=1, dtype=tb, x0=50)
+                        items = ['file_head'] + mid + [['pair', sa, 0, sb, 1, order]] + ['file_tail']
+                        ops = [['load', 0, None, None], ['load', 1, None, None], ['load', 0, [1, 6, 2], [1]], ['load', 1, [2, 5, 1], None],
+                               ['load', 1, [4, 5, 1], [1]], ['load', 0, [3, 4, 1], None]]
+                        yield items, layout, ops
+                        if not mid and 'tif' not in layout:
+                            spec2 = base_spec([chan('DEPT', 68), chan('CALI', 49)], 4, 4, indirect=indirect, updown=1)
+                            yield (items + ['file_head', ['pass', spec2, 1], 'file_tail'], layout,
+                                   ops + [['load', 2, None, None], ['load', 2, [1, 4, 2], [1]]])
+
+
 def gen_I(tier):
     cfg = [chan('DEPT', 68, units='FEET'), chan('GR  ', 68, units='GAPI'), chan('SP  ', 79, 2, 1)]
     cfg2 = [chan('DEPT', 68), chan('CALI', 49)]
@@ -452,7 +582,8 @@ def h_menu():
 
 def shards(tier):
     return ([{'gen': 'V', 'part': p, 'of': 32} for p in range(32)] + [{'gen': 'S', 'part': p, 'of': 64} for p in range(64)] +
-            [{'gen': 'I', 'part': p, 'of': 16} for p in range(16)] + [{'gen': 'H', 'part': p, 'of': 4} for p in range(4)])
+            [{'gen': 'I', 'part': p, 'of': 16} for p in range(16)] + [{'gen': 'H', 'part': p, 'of': 4} for p in range(4)] +
+            [{'gen': 'P', 'part': p, 'of': 8} for p in range(8)] + [{'gen': 'D', 'part': p, 'of': 8} for p in range(8)])
 
 
 def run_ops(items, layout, ops, res, shape):
@@ -463,7 +594,7 @@ def run_ops(items, layout, ops, res, shape):
     except Exception as err:  # noqa
         sig = {'kind': 'index_raises', 'exc': type(err).__name__}
         if isinstance(err, OverflowError) and 'negative value' in str(err) and \
-                any(c['code'] == 70 for it in items if not isinstance(it, str) for c in it[1]['channels']):
+                any(c['code'] == 70 for it in items if not isinstance(it, str) and it[0] == 'pass' for c in it[1]['channels']):
             sig = {'kind': 'code70_negative_value_unreadable', 'where': 'index'}
         res.violate(sig, dict(base, history=[]), '%s: %s' % (type(err).__name__, err))
         res.case(h64(repr(base)), nontrivial=True, outcome=('raise', type(err).__name__))
@@ -503,7 +634,7 @@ def run_shard(shard, tier):
             res.case(h64(repr((items, layout))), nontrivial=True, outcome=h64((st, tr)),
                      sample={'items': items, 'layout': layout, 'states': st, 'transitions': tr, 'frontier_closed': closed})
         return res
-    gen = {'V': gen_V, 'S': gen_S, 'I': gen_I}[g](tier)
+    gen = {'V': gen_V, 'S': gen_S, 'I': gen_I, 'P': gen_P, 'D': gen_D}[g](tier)
     for i, (items, layout, ops) in enumerate(gen):
         if i % shard['of'] != shard['part']:
             continue
